@@ -41,6 +41,8 @@ def step (s : CS) (ws : List String) : Option (CS × String) :=
           (s', render s' fr))
       | "timeout", _ =>
         if !s.loaded then some (s, render s []) else
+        -- the establishment timer runs from the invitation until the call is accepted (calls.go:236, 313) or over: it can fire only then
+        if !s.timerArmed then some (s, render s []) else
         let (s', fr) := s.terminate true; some (s', render s' fr)
       | _, _ => none
   | _ => none
